@@ -152,7 +152,8 @@ func (r *Runtime) toValueProp(v Value) *valueProperty {
 		ret.setterFunc = o
 	}
 
-	if ret.getterFunc != nil || ret.setterFunc != nil {
+	if getter != nil || setter != nil {
+		// an accessor descriptor, even when both functions are undefined
 		ret.accessor = true
 	}
 
